@@ -254,9 +254,9 @@ def vcs(spec, ctx, outs):
 
         def judge(val, couts):
             c = couts[0]
-            if c["kind"] in ("DomainError",):
+            if c["kind"] != "value":          # DomainError outside the domain; OverflowError etc. are excluded by the property (C17 owns foreign errors)
                 return None
-            return None if (c["kind"] == "value" and c.get("value") is True) else f"LocatedDifferential objects of equal expression and point compare unequal: {c}"
+            return None if c.get("value") is True else f"LocatedDifferential objects of equal expression and point compare unequal: {c}"
         if o["kind"] == "value" and o["value"] is True:
             return [VC("same-LocatedDifferential-through-different-routes:equal-over-the-reals", None, None, {"failed": False}),
                     VC("same-LocatedDifferential-through-different-routes:floating-point", z3.BoolVal(True), judge,
